@@ -450,7 +450,7 @@ func TestVerifC13(t *testing.T) {
 				Pos: rapid.IntRange(0, 20).Draw(rt, "pos"), K: rapid.IntRange(0, 20).Draw(rt, "k")}
 		},
 		Run: runMistake}
-	s := p.Main(t, vkit.Scale(3000, 40000))
+	s := p.Main(t, vkit.Scale(4500, 40000))
 	if !vkit.Replaying() {
 		s.Done()
 	}
